@@ -206,7 +206,9 @@ def add_aliases(rng, prog):
     if not ground:
         return prog
     n = 0
-    for k in range(rng.randint(1, 3)):
+    # fresh names when the program already has aliases
+    k0 = 1 + max([int(c[2][0][2:]) for c in prog["clauses"] if c[0] == "rule" and c[2][0].startswith("al") and c[2][0][2:].isdigit()] or [-1])
+    for k in range(k0, k0 + rng.randint(1, 3)):
         t = rng.choice(ground)
         neg = rng.random() < 0.5
         al = L("al%d" % k)
